@@ -209,7 +209,18 @@ theorem openElement_dinv {ts done done' : List Token} {b b' : Builder} (h : DInv
           intro k hk
           rw [get_addAttributeSpans_path _ _ hk, get_add_other _ _ _ _ (fun he => hk (by rw [he]))]
         have hprot := prot_of_next hget
-        refine ⟨hpre, ⟨⟨descR_leaves _ _ _ hinv.leaves, ?_, ?_⟩, ?_⟩, (fun e he => by cases he), ?_, ?_⟩
+        have hstartKey : ((b.spans.add ⟨b.curPath ++ [b.cur.rkids.length], .elementStart⟩ eb.span).addAttributeSpans
+              (b.curPath ++ [b.cur.rkids.length]) st.aspans).get ⟨b.curPath ++ [b.cur.rkids.length], .elementStart⟩ =
+            some (Span.fromPrefixName p l) := by
+          rw [get_addAttributeSpans_notin _ _ _ _ (fun a _ => ⟨by simp, by simp⟩), get_add_self, e3]
+        have hpfx : PfxDesc ts ((b.spans.add ⟨b.curPath ++ [b.cur.rkids.length], .elementStart⟩ eb.span).addAttributeSpans
+              (b.curPath ++ [b.cur.rkids.length]) st.aspans).get st.env
+            (⟨.element nameId, st.rkids⟩ :: b.cur :: b.parents) (eb.pfx :: b.openPrefixes) := by
+          refine pfxDesc_of_element (id := nameId) rfl ⟨⟨p, l, sp, htok, by rw [hnp]; exact hstartKey, by rw [e1]; rfl, ?_⟩, ?_⟩
+          · obtain ⟨_, ns, hns, _⟩ := hname.mono happ2
+            exact ⟨ns, by rw [← e2]; exact hns⟩
+          · exact pfxDesc_mono happ _ _ (fun k hk => hprot k (.inr hk)) h.pfx
+        refine ⟨hpre, ⟨⟨descR_leaves _ _ _ hinv.leaves, ?_, ?_⟩, ?_⟩, hpfx, (fun e he => by cases he), ?_, ?_⟩
         · -- the start tag
           show StartFacts ts _ st.env (eb.namespaces :: b.nsStack) (framesPath (b.cur :: b.parents)) nameId st.rkids
           rw [hnp]
